@@ -126,6 +126,7 @@ type Node struct {
 	TornFrac  float64
 	Crashed   bool            // set when the crash fired; cleared by Mount/Restart
 	ErrAt     map[int64]error // explicit error at I/O index
+	FailNext  [NOp]int        // fail the next n operations of a kind (EIO)
 	ErrRate   [NOp]float64    // seeded error probability per kind
 	ShortRead float64         // probability of a short read
 	Latency   time.Duration   // max virtual latency per I/O point (0 = none)
@@ -194,7 +195,14 @@ func clean(p string) string {
 
 func now() time.Time { return simrt.TimeNow() }
 
-func perr(op, p string, err error) error { return &fs.PathError{Op: op, Path: p, Err: err} }
+func perr(op, p string, err error) error {
+	if debugErrs {
+		fmt.Fprintf(realos.Stderr, "simos error: %s %s: %v\n", op, p, err)
+	}
+	return &fs.PathError{Op: op, Path: p, Err: err}
+}
+
+var debugErrs = realos.Getenv("KEVOSIM_DEBUG") != ""
 
 // staleTask reports whether the calling task belongs to a stopped incarnation of node.
 func (f *FS) staleTask(node string) bool {
@@ -253,6 +261,12 @@ func (f *FS) point(op *Op) (apply bool, torn int, err error) {
 		default:
 			return true, -1, errCrashAfter
 		}
+	}
+	if n.FailNext[op.Kind] > 0 {
+		n.FailNext[op.Kind]--
+		n.Stats.ErrFired[op.Kind]++
+		simrt.Note("io-error %s %s #%d (armed)", OpNames[op.Kind], op.Path, idx)
+		return false, -1, syscall.EIO
 	}
 	if e, ok := n.ErrAt[idx]; ok {
 		n.Stats.ErrFired[op.Kind]++
